@@ -1,7 +1,7 @@
 (* sm2_unwrap inverts sm2_wrap: C02's round trip with the SM2 facts discharged (Prime/SM2FactsProof.v). *)
 From Coq Require Import List NArith ZArith Bool Arith Lia.
 From GmsmVerif Require Import Lib.Outcome EC.SM2Curve SM2.SM2Model Prime.SM2FactsProof P7.P7SM2Model.
-From GmsmVerif Require Props.C02.
+From GmsmVerif Require Props.C02 Props.C01.
 Import ListNotations.
 
 Lemma sm2_unwrap_wrap fuel mode d key rho e :
@@ -14,4 +14,17 @@ Proof.
   destruct (Encrypt fuel (ScalarBaseMult d) key rho mode) as [[c rho']| | |] eqn:EE; cbn [omap obind fst]; try discriminate.
   intros [= <-].
   apply (C02.C02_decrypt_encrypt SM2Facts_proved fuel d key rho mode c rho'); [lia|exact Hf|exact EE].
+Qed.
+
+(* PublicKey.Verify accepts what PrivateKey.Sign returns: C01's theorem with the SM2 facts discharged, cited, not
+   evaluated *)
+Lemma sm2_p7_sign_correct (Cert : Type) (cert_d : Cert -> Z) fuel c d m r s algo :
+  d = cert_d c -> (1 <= d <= sm2_n - 2)%Z ->
+  sm2_p7_sign fuel d m r = Ok s -> sm2_p7_check cert_d c algo m s = true.
+Proof.
+  intros -> Hd. unfold sm2_p7_sign, sm2_p7_check.
+  destruct (Sign fuel (key_of (cert_d c)) r m) as [[sig rho']| | |] eqn:E; cbn [omap obind fst]; try discriminate.
+  intros [= <-].
+  exact (C01.C01_Sign_then_PublicKey_Verify P_prime_holds Add_assoc_holds G_order_divides_n_holds G_multiples_finite_holds
+           N_prime_holds fuel (cert_d c) r m sig rho' Hd E).
 Qed.
